@@ -68,12 +68,28 @@ MAY_RAISE_APPS = {
 }
 
 
+def freeze(v: Term) -> Term:
+    """A hashable stand-in for a closure value that ends up inside an opaque application term:
+    the source text of the lambda/def plus the values of the free variables it captures."""
+    if isinstance(v, tuple) and v and v[0] == "lambda" and len(v) == 5 and isinstance(v[4], dict):
+        node = v[1]
+        bound = {a.arg for a in getattr(node, "args", ast.arguments(posonlyargs=[], args=[], kwonlyargs=[], kw_defaults=[], defaults=[])).args}
+        free = sorted({n.id for n in ast.walk(node) if isinstance(n, ast.Name)} - bound)
+        cap = tuple((n, freeze(v[4][n])) for n in free if n in v[4])
+        try:
+            hash(cap)
+        except TypeError:
+            cap = tuple((n, ("top", "unhashable captured value")) for n, _ in cap)
+        return ("closure", ast.unparse(node)[:400], cap)
+    return v
+
+
 def kwitems(kwargs: Dict[str, Term]) -> Tuple[Term, ...]:
-    return tuple(("kw", k, v) for k, v in sorted(kwargs.items()))
+    return tuple(("kw", k, freeze(v)) for k, v in sorted(kwargs.items()))
 
 
 def app(name: str, args: List[Term], kwargs: Optional[Dict[str, Term]] = None) -> Term:
-    return ("app", name) + tuple(args) + kwitems(kwargs or {})
+    return ("app", name) + tuple(freeze(a) for a in args) + kwitems(kwargs or {})
 
 
 def text_of(x: Term) -> Term:
@@ -132,6 +148,9 @@ def call_ext(I: Any, name: str, args: List[Term], kwargs: Dict[str, Term], st: A
     if name == "builtins.filter":
         return ("filterobj", lambda_norm(I, args[0], args[1], st, ctx, node), args[1])
     if name == "builtins.sum":
+        if len(args) == 1 and args[0][0] == "mapobj" and len(args[0]) == 4 and args[0][3] == "list":
+            # sum(f(x) for x in xs) == sum(map(f, xs)): one canonical form
+            return app("sum", [("map", args[0][1], args[0][2])])
         return app("sum", args)
     if name == "builtins.list" or name == "builtins.tuple" or name == "builtins.sorted":
         if not args:
@@ -141,7 +160,13 @@ def call_ext(I: Any, name: str, args: List[Term], kwargs: Dict[str, Term], st: A
         if items is not None:
             from .interp import HeapObj
             if name == "builtins.sorted":
-                return app("sorted", args)
+                keyf = kwargs.get("key")
+                rev = kwargs.get("reverse", c(False))
+                keys = [I.call(keyf, [it], {}, st, ctx, node) for it in items] if keyf is not None and keyf != c(None) else list(items)
+                if is_c(rev) and all(is_c(k) and isinstance(k[1], (int, str, float)) and not isinstance(k[1], bool) for k in keys) and len({type(k[1]) for k in keys}) <= 1 and set(kwargs) <= {"key", "reverse"}:
+                    order = sorted(range(len(items)), key=lambda i: keys[i][1], reverse=bool(rev[1]))
+                    return st.alloc(HeapObj("list", None, {}, [items[i] for i in order]))
+                return app("sorted", args, kwargs)
             return st.alloc(HeapObj("list", None, {}, list(items)))
         return app(name.split(".")[1], args, kwargs)
     if name == "builtins.set" or name == "builtins.frozenset":
@@ -169,10 +194,13 @@ def call_ext(I: Any, name: str, args: List[Term], kwargs: Dict[str, Term], st: A
                         pairs.append((I.canon_cmp_operand(it[1][0], st), it[1][1]))
                     else:
                         return top("dict() of non-pairs")
-                # later duplicates win, like dict()
+                # a repeated key keeps its first position and takes the last value, like dict()
                 dd: List[Tuple[Term, Term]] = []
                 for k, v in pairs:
-                    dd = [(k2, v2) for (k2, v2) in dd if k2 != k] + [(k, v)]
+                    if any(k2 == k for k2, _ in dd):
+                        dd = [(k2, v if k2 == k else v2) for (k2, v2) in dd]
+                    else:
+                        dd.append((k, v))
                 return st.alloc(HeapObj("dict", None, {}, dd))
         return app("dict", args, kwargs)
     if name == "builtins.isinstance":
@@ -236,6 +264,18 @@ def call_ext(I: Any, name: str, args: List[Term], kwargs: Dict[str, Term], st: A
         return I.external_call(name, args, kwargs, st, ctx, node, awaited)
     if name == "socket.inet_ntoa":
         return text_of(app("inet_ntoa", args))
+    if name in ("operator.attrgetter", "operator.itemgetter") and len(args) == 1 and not kwargs and is_c(args[0]) and isinstance(args[0][1], (str, int)):
+        # a synthesised lambda: attrgetter("a.b") == lambda x: x.a.b ; itemgetter(k) == lambda x: x[k]
+        body: ast.expr = ast.Name(id="$x", ctx=ast.Load())
+        if name.endswith("attrgetter") and isinstance(args[0][1], str):
+            for part in args[0][1].split("."):
+                body = ast.Attribute(value=body, attr=part, ctx=ast.Load())
+        else:
+            body = ast.Subscript(value=body, slice=ast.Constant(value=args[0][1]), ctx=ast.Load())
+        lam = ast.Lambda(args=ast.arguments(posonlyargs=[], args=[ast.arg(arg="$x")], kwonlyargs=[], kw_defaults=[], defaults=[]), body=body)
+        ast.copy_location(lam, node)
+        ast.fix_missing_locations(lam)
+        return ("lambda", lam, None, ctx.fi, {})
     if name in ("builtins.round",):
         return app("round", args, kwargs)
     if name == "builtins.hash":
@@ -248,6 +288,12 @@ def call_ext(I: Any, name: str, args: List[Term], kwargs: Dict[str, Term], st: A
         if all(is_c(a) and isinstance(a[1], (int, float)) for a in args) and args:
             f = {"min": min, "max": max, "abs": abs}[name.split(".")[1]]
             return c(f(*[a[1] for a in args]) if name != "builtins.abs" else abs(args[0][1]))
+        if name != "builtins.abs" and len(args) == 1 and set(kwargs) == {"key"} and kwargs["key"][0] in ("lambda", "func"):
+            # argmin / argmax of a collection: the key is kept as its body over the canonical element symbol $e
+            coll = args[0]
+            under = coll[2] if (coll[0] == "mapobj" and len(coll) == 4) else coll
+            st.may_raise("ValueError", ("not", ("truthy", under)), where)
+            return ("arg" + name.split(".")[1], lambda_norm(I, kwargs["key"], coll, st, ctx, node), coll)
         return app(name.split(".")[1], args, kwargs)
     if name == "builtins.getattr" and len(args) >= 2 and is_c(args[1]) and isinstance(args[1][1], str):
         obj, nm = args[0], args[1][1]
@@ -522,7 +568,7 @@ def arith(op: str, a: Term, b: Term) -> Term:
                       "lshift": lambda x, y: x << y, "rshift": lambda x, y: x >> y, "pow": lambda x, y: x ** y}[op](a[1], b[1]))
         except Exception:  # noqa: BLE001
             return app(op, [a, b])
-    lin_ok = lambda v: v[0] in ("c", "lin", "sym", "len", "uint", "app", "dec", "eattr", "attr", "item", "elemof")  # noqa: E731
+    lin_ok = lambda v: v[0] in ("c", "lin", "sym", "len", "uint", "app", "dec", "eattr", "attr", "item", "elemof", "argmin", "argmax")  # noqa: E731
     if op in ("add", "sub") and lin_ok(a) and lin_ok(b) and not _is_datetime_like(a) and not _is_datetime_like(b):
         la, lb = Lin.of(a), Lin.of(b)
         return (la + lb).term() if op == "add" else (la - lb).term()
@@ -902,9 +948,32 @@ def str_format(I: Any, tmpl: str, args: List[Term], kwargs: Dict[str, Term], st:
     return out
 
 
-def pad(s: Term, width: Term, fill: Term, side: str) -> Term:
+def pad(s: Term, width: Term, fill: Term, side: str, I: Any = None, st: Any = None, ctx: Any = None, node: Any = None) -> Term:
     w = as_const_int(width)
     f = fill[1] if is_c(fill) and isinstance(fill[1], str) else None
+    if s[1] in ("raw", "b") and is_c(fill) and isinstance(fill[1], bytes) and len(fill[1]) == 1 and isinstance(w, int):
+        # bytes.ljust / rjust: width counts bytes
+        if s[1] == "b" and fill[1].isascii():
+            f = fill[1].decode()
+        elif s[1] == "raw":
+            fh = fill[1].hex()
+            cwn = T.const_width(s)
+            if cwn is not None:
+                if cwn >= 2 * w:
+                    return s
+                padatoms = (("L", fh * (w - cwn // 2)),)
+                return T.seq("raw", s[2] + padatoms if side == "ljust" else padatoms + s[2])
+            if I is not None and st is not None:
+                ln = length(I, s, st, ctx, node)
+                from .frames import int_bounds_from_guard
+                lo_, hi_ = int_bounds_from_guard(list(st.pc), ln)
+                if hi_ is not None and hi_ <= w:
+                    cnt = (Lin.of(c(w)) - Lin.of(ln)).term()
+                    padatoms = (("rep", fh, cnt),)
+                    return T.seq("raw", s[2] + padatoms if side == "ljust" else padatoms + s[2])
+                if lo_ is not None and lo_ >= w:
+                    return s
+            return top("pad of bytes whose length is not bounded by the path's guards")
     if not isinstance(w, int) or f is None or len(f) != 1:
         return top("pad with non-constant width/fill")
     cw = T.const_width(s)
@@ -1154,9 +1223,9 @@ def text_method(I: Any, s: Term, name: str, args: List[Term], kwargs: Dict[str, 
     if name == "lower":
         return (s[0], kind, T.lower_atoms(s[2]))
     if name in ("ljust", "rjust"):
-        return pad(s, args[0], args[1] if len(args) > 1 else c(" "), name)
+        return pad(s, args[0], args[1] if len(args) > 1 else (c(b" ") if kind in ("raw", "b") else c(" ")), name, I, st, ctx, node)
     if name == "zfill":
-        return pad(s, args[0], c("0"), "rjust")
+        return pad(s, args[0], c("0"), "rjust", I, st, ctx, node)
     if name in ("rstrip", "strip", "lstrip"):
         if all(a[0] == "L" for a in s[2]) and all(is_c(a) for a in args):
             txt = "".join(a[1] for a in s[2])
